@@ -69,6 +69,7 @@ def run(ctx) -> None:
     r20_2(ctx)
     r20_3(ctx)
     r20_5(ctx)
+    r20_6(ctx)
     ctx.floor("streaming_units", 20)
     ctx.floor("pull_loops", 15)
     ctx.floor("windows_checked", 3)
@@ -78,6 +79,34 @@ MATERIALISERS = {"tuple", "list", "sorted", "set", "frozenset", "dict", "deque",
 ADAPTERS = ["_core.aiter", "_core._aiter_sync", "_core.borrow", "_core.ScopedIter.__init__", "_core.ScopedIter.__aenter__",
             "builtins.iter", "builtins.anext", "asynctools.borrow", "asynctools.scoped_iter", "asynctools.any_iter",
             "asynctools.await_each"]
+
+
+HANDLE_CLASSES = ["itertools._GroupByState", "itertools._Grouper", "itertools.GroupBy", "itertools.chain"]
+
+
+def r20_6(ctx) -> None:
+    """The handle classes (groupby machinery, chain) keep a fixed number of references: no method
+    that runs per item / per group adds to a container held by the handle."""
+    ctx.rule("R20.6", "groupby / chain handles: no container attribute grows in a method that runs per item or per group")
+    for short in HANDLE_CLASSES:
+        info = ctx.pkg.cls(short)
+        for mname, m in info.methods.items():
+            if mname == "__init__":
+                continue
+            bad = 0
+            for c in own_nodes(m.node):
+                if isinstance(c, ast.Call) and isinstance(c.func, ast.Attribute) and c.func.attr in GROW_METHODS | {"__setitem__"} \
+                        and isinstance(c.func.value, ast.Attribute):
+                    bad += 1
+                    ctx.fail("R20.6", m, c, f"`{norm(c.func)}(...)` adds to a container held by the handle every time {mname} runs: "
+                             "retention grows with the number of items / groups", line=c.lineno)
+                if isinstance(c, ast.Assign) and any(isinstance(t, ast.Subscript) and isinstance(t.value, ast.Attribute) for t in c.targets):
+                    bad += 1
+                    ctx.fail("R20.6", m, c, "a subscript store into a container held by the handle: retention may grow with the stream",
+                             line=c.lineno)
+            if not bad:
+                ctx.count("handle_methods")
+    ctx.ok("R20.6", "itertools", "no handle method grows a container attribute")
 
 
 def _is_source(ctx, u, e, n) -> bool:
